@@ -167,6 +167,7 @@ def _canary(groups, metas, d, bad_keys=()):
             else:
                 e["ticks"].append([[] for _ in e["ticks"][0]])
                 e["ta"] += 1
+                e["nticks"] += 1
                 want[cid] = "ticks-executed"
             del g2[steps[-1] + 1:]
             evs.extend(g2)
